@@ -117,6 +117,22 @@ def work(args):
                             if pn in ("r", "o"):
                                 if k[0] != want:
                                     out["kind_problems"].append({"cls": cname, "prop": pn, "document_kind": want, "parsed_kind": k[0], "schema": G.LEAVES[ln]})
+            # document-vs-parse: which properties a component object schema has and which of them it requires is read from the DOCUMENT
+            from openapi_python_client.utils import ClassName as _CN
+            by_class = {str(m.class_info.name): m for m in ab.models}
+            for sname, sch in (doc.get("components", {}).get("schemas", {}) or {}).items():
+                exp = G.doc_props_required(doc, sch)
+                m = by_class.get(str(_CN(sname, "")))
+                if exp is None or m is None:
+                    continue
+                got = {pn: req for pn, req, _k in ab.class_props(m)}
+                for pn in sorted(exp[0]):
+                    # one direction only: a property the document leaves OPTIONAL but the parser requires makes valid instances undecodable
+                    # (the other direction - allof_required_unapplied, a C15/C10 finding - does not affect the round trip)
+                    if pn in got and got[pn] and pn not in exp[1]:
+                        out["kind_problems"].append({"cls": str(m.class_info.name), "prop": pn, "document_required": pn in exp[1], "parsed_required": got[pn], "schema": sch})
+                if set(got) != exp[0] and not (cfg or {}).get("field_prefix"):
+                    out["kind_problems"].append({"cls": str(m.class_info.name), "document_properties": sorted(exp[0]), "parsed_properties": sorted(got), "schema": sch})
             ops, meta = [], []
             for m in ab.models:
                 cname = str(m.class_info.name)
@@ -201,7 +217,7 @@ def run(run, tier, replay=None):
             continue
         hdr += f"Definition T{di} : ctable := {r['ctable']}.\nDefinition O{di} : oracles := {r['oracles']}.\n"
         for kp in r.get("kind_problems", []):
-            run.violation("oracle", {"label": r["label"], "doc": r["doc"], **kp, "note": "the parser built a property of a different kind than the document declares (e.g. a const no longer checked)"})
+            run.violation("oracle", {"label": r["label"], "doc": r["doc"], **kp, "note": "the parser built a property of a different kind / requiredness than the document declares (e.g. a const no longer checked, an optional property made required)"})
         for c in r["cases"]:
             run.note_case({"doc": r["label"], "cls": c["cls"], "instance": c["data"]}, nontrivial=bool(c["data"]), kind=("valid" if c["valid_gen"] else "mutant"))
             if "unrepresentable" in c:
